@@ -1194,7 +1194,7 @@ func (p *Prop) Run(t *simhook.Tape, opt simkit.RunOpt) *simkit.RunResult {
 			}
 		}
 	}
-	res, abort := simkit.RunSolo(t, 8000000, 1000000, true, body)
+	res, abort := simkit.RunSolo(t, 8000000, 50000000, true, body) // (the operation budget only has to end a hang: a 2^18-element Sum in a compensated variant costs well over a million yields)
 	rr := &simkit.RunResult{Hash: uint64(c.hash), Nontrivial: c.nontriv, Steps: res.Steps, History: c.hist, Policy: "seq"}
 	if abort != nil && !simkit.AbortIsVerdict(abort) {
 		rr.BudgetHit = true
